@@ -110,6 +110,39 @@ def emit(name, scalars, t, fnmap, comment):
     return trlib.emit_match_def(name, [], scalars, t, fnmap, comment)
 
 
+def batched_items_check(lin):
+    """groups > 1: tensor() (both invert flags) traced on a batch of N = 2 parameter sets must give, item by item,
+    the unbatched closed form in that item's own parameters (no mixing of batch entries) -- structural check,
+    fail-closed"""
+    specs = [("Translation", 2, 2, {}), ("Translation", 3, 3, {}), ("IsotropicScaling", 3, 1, {}), ("AnisotropicScaling", 2, 2, {}),
+             ("AnisotropicScaling", 3, 3, {}), ("Shearing", 2, 1, {}), ("Shearing", 3, 3, {}), ("EulerRotation", 2, 1, {"order": None}),
+             ("EulerRotation", 3, 3, {"order": "ZXZ"}), ("EulerRotation", 3, 3, {"order": "XYZ"}), ("QuaternionRotation", 3, 4, {})]
+    for cname, D, n, attrs in specs:
+        cls = getattr(lin, cname)
+        for iv in (False, True):
+            single = inst(cls, D, vec("p", n), iv, **attrs).tensor()
+            pb = st.Tensor(np.array([[E.var(f"p{i}_{k}") for i in range(n)] for k in range(2)], dtype=object))
+            both = inst(cls, D, pb, iv, **attrs).tensor()
+            if both.shape[0] != 2:
+                raise TraceError(f"{cname}: batched tensor() has batch size {both.shape[0]}")
+            for k in range(2):
+                ren = {f"p{i}_{k}": f"p{i}" for i in range(n)}
+                item = np.vectorize(lambda e: trlib.rename(e, ren), otypes=[object])(both.a[k])
+                if not trlib.same_tensor(item, single.a[0]):
+                    raise TraceError(f"{cname} D={D} invert={iv}: item {k} of a batch of 2 is not the single-transform closed form")
+    for D in (2, 3):
+        for iv in (False, True):
+            def hm(tag):
+                return [[E.var(f"h{i}{j}{tag}") for j in range(D + 1)] for i in range(D)]
+            single = inst(lin.HomogeneousTransform, D, st.Tensor(np.array([hm("")], dtype=object)), iv).tensor()
+            both = inst(lin.HomogeneousTransform, D, st.Tensor(np.array([hm("_0"), hm("_1")], dtype=object)), iv).tensor()
+            for k in range(2):
+                ren = {f"h{i}{j}_{k}": f"h{i}{j}" for i in range(D) for j in range(D + 1)}
+                item = np.vectorize(lambda e: trlib.rename(e, ren), otypes=[object])(both.a[k])
+                if not trlib.same_tensor(item, single.a[0]):
+                    raise TraceError(f"HomogeneousTransform D={D} invert={iv}: item {k} of a batch of 2 is not the single-transform closed form")
+
+
 def has_parameters_table(lin):
     """ParametricTransform.has_parameters() -- which decides whether angles()/scales() apply the tanh/exp
     re-parameterisation -- evaluated on instances of every re-parameterised class for every way `params` can be
@@ -212,5 +245,6 @@ def generate(loader):
         out.append(emit(f"gen_quaternion_{inv_name[iv]}", ["n", "qw", "qx", "qy", "qz"], t, fm,
                         f"QuaternionRotation.tensor, invert = {iv}; n is the norm the code divides by"))
     out.append("End Gen.\n")
+    batched_items_check(lin)
     out.append(has_parameters_table(lin))
     return "\n".join(out)
